@@ -73,6 +73,16 @@ def generate(rng, tier):
         cases.append([pt_traj(rng, rng.choice([1, 3, 30]))])
         cases.append([pt_traj(rng, rng.choice([2, 10]), npts=rng.randint(1, 5))])
     ds = [0.0, 1.0, 5.9, 5.99, 6.0, 8.0, 11.0, 11.07, 11.08, 12.0, 50.0, 99.0, 150.0] + [rng.uniform(0, 20) for _ in range(20)]
+    # distances a few float steps around both gates: the two conversions must gate at the same distance, also where
+    # `upper - d` rounds (stepping from the f32 nearest to the tabulated quantile; step 0 is left out: the f32 gate and
+    # the exact quantile differ by less than one step, so only there could model and implementation legitimately differ)
+    import struct as _st
+    def _step(x, k):
+        b = _st.unpack(">I", _st.pack(">f", x))[0] + k
+        return _st.unpack(">f", _st.pack(">I", b))[0]
+    for g in (5.9915, 11.070):
+        g32 = _st.unpack(">f", _st.pack(">f", g))[0]
+        ds += [_step(g32, k) for k in (-3, -2, -1, 1, 2, 3, 5, 8, 12)]
     for kind in ("box", "point", "vec"):
         for d in ds:
             for inv in (0, 1):
